@@ -21,11 +21,27 @@ func init() {
 					j("VerifTrieSet", "4", "2", "2", "ab"))
 			}
 			jobs = append(jobs, Job{Prop: "C20", Pkg: "repl", Func: "VerifCompletion", Args: []string{"2", "2", "2"}})
+			jobs = append(jobs, Job{Prop: "C20", Pkg: "repl", Func: "VerifCompletion", Args: []string{"2", "2", "3"}})
+			// what the interpreter registers for completion: definitions, redefinitions, rejected assignments, deletions
+			for _, sess := range [][]string{
+				{"x1,f1,y1,zz", "x1 = a", "func f1(u){u}", "y1 = [x1]"},
+				{"x1,f1", "x1 = 1; x1 = 2", "f1 = u => u"},
+				{"sin,LIMIT,q1", "sin = 1", "LIMIT = 10", "LIMIT = func(){3}", "q1 = sin(1.)"},
+				{"K1,k2", "K1 = a", "K1 = a + 1", "k2 = K1"},
+				{"g1,h1", "func g1(){h1 = 1}", "g1()"},
+				{"p1,p2", "if a > 0 {p1 = 1} else {p2 = 2}"},
+				{"v1,w1", "for v1 = 3 {w1 = v1}"},
+				{"e1,e2", "e1 = 1 + nosuch", "e2 = error(\"x\")"},
+				{"m1,m2", "m1 = macro(u){quote(unquote(u))}", "m2 = m1(5)"},
+				{"t1", "t1 = 1", "func t1b(){t1}", "t1 = \"s\""},
+			} {
+				jobs = append(jobs, Job{Prop: "C20", Pkg: "repl", Func: "VerifCompletionIds", Args: sess, MaxDec: 400})
+			}
 			return jobs
 		},
 		Budget:  map[string]time.Duration{"quick": 4 * time.Minute, "thorough": 40 * time.Minute},
-		Reach:   []string{"non-empty prefix result", "several completions"},
-		Bounds:  map[string]interface{}{"words": "<=3 inserted words of length 0..2 and 2 words of length 0..3 (thorough: 3 words of length 0..3, 4 of length 0..2), every insertion order", "alphabets": "{a,b} and {a,0x00,0xff} (bytes symbolic under an alphabet assumption)", "query": "length 0..3"},
+		Reach:   []string{"non-empty prefix result", "several completions", "completion with text after the cursor", "defined name probed", "undefined name probed"},
+		Bounds:  map[string]interface{}{"words": "<=3 inserted words of length 0..2 and 2 words of length 0..3 (thorough: 3 words of length 0..3, 4 of length 0..2), every insertion order", "registration": "10 sessions (definitions, functions, redefinitions, assignments rejected because the name is an extension or a bound constant, definitions inside functions / branches / loops, failing inputs, macros): after each, every probed name is offered exactly when it is a top-level binding, functions with ( and variables with a space", "cursor": "any position in a typed line of up to 3 bytes; the text after the cursor must be kept", "alphabets": "{a,b} and {a,0x00,0xff} (bytes symbolic under an alphabet assumption)", "query": "length 0..3"},
 		Outside: []string{"words longer than 3 bytes, more than 4 words, bytes outside the two alphabets (each symbolic byte forks once per alphabet member in children[char])"},
 	})
 }
